@@ -1,19 +1,32 @@
-"""C19 — translator of generator FUNCTION BODIES: reads `modulo_counter`, `line`, `fadein`, `fadeout`, `attack`, `adsr`
-from the source text of audiolazy/lazy_synth.py of the repo under test with `ast` (nothing is imported from the repo) and
+"""C19 — translator of generator FUNCTION BODIES: reads `modulo_counter`, `line`, `fadein`, `fadeout`, `attack`, `adsr`,
+`ones`, `zeros`, `impulse`, `sinusoid`, `TableLookup.__call__`, `TableLookup.__getitem__` from the source text of audiolazy/lazy_synth.py of the repo under test with `ast` (nothing is imported from the repo) and
 writes them as Lean definitions over the number operations `NumOps` in the vocabulary of `lean/ALV/Model/C19Src.lean`
 (`forG`, `whileG`, `rangeG`, `takeRun`, `runPre`, `Iter.pre`, `post`, `modChain`, `nextOr`, `finiteG`) into
 `lean/ALV/Gen/C19Src.lean`.  `Props/C19.lean` proves `src_<f>_is_model`: each regenerated definition equals the code
-shaped model (`mcNow`, `lineG`, `adsrG`, `attackNow`) the other theorems of the slice are about.
+shaped model (`mcNow`, `lineG`, `adsrG`, `attackNow`, `constG`, `impulseG`, `sinusoidNow`, `tableCallNow`, `getItemNow`) the other theorems of the slice are about.
 
 The Python subset understood (anything else in a chosen function raises TranslationError = broken obligation):
   * parameters with constant defaults; the decorator `tostream`; a docstring
   * `x = E`, `x += E` with E built from names, the float literals 0. / 1. / .5, int literals, `+ - * /`, unary minus,
     `A if C else B`, `int(E)`, a left-nested chain `E % m % m ...` (only at the top of an assigned / yielded expression),
-    `abs(E) < float("inf")`, `E == 0`, `E != 0`, comparisons of ints, a bool parameter
+    `abs(E) < float("inf")`, `E == 0`, `E != 0`, comparisons of ints, a bool parameter, `isinf(E)`, order comparisons of
+    numbers (`a >= b` is `o.le b a`; the int literal 0 is read as the number zero), `C1 and C2` of such
+  * an optional number parameter (default None): `if x is None or C: A [else: B]` -> `match x with | none => A | some x =>
+    if C then A else B`; `yield E` at function level (a one sample segment); what follows an endless
+    `while True: yield E` in a sequence is never run and is not translated (the fall-through of `ones` / `zeros`);
+    parameters that are items of any type (`one`, `zero` of impulse: only yielded)
+  * `for v in g(args, kw=args): yield f(v)` with g a translated generator function and f a module level function that
+    becomes a parameter of the Lean definition (`sin`); the expression `2 * pi`, written exactly so, becomes the
+    parameter `twoPi`
   * `if isinstance(x, Iterable): .. else: ..`, `if C: .. else: ..`, `it = iter(x)`, `it = None`,
     `try: x = next(it) / except StopIteration: return`, `if it is None: .. else: ..`
   * loops `for v[, v..] in xzip(l, ..) / l / xrange(k)` and `while True` whose body holds exactly one `yield`, not nested
   * `return f(args)` of another translated function (defaults filled in from its signature)
+  * the method `TableLookup.__call__` (Lean `table_call`): `len(self)`, `self.table`, `self.cycles * 2 * pi` (the parameter
+    `den`), `float(k)`, `number * argument`, `x = g(args)` of a translated generator, `tbl[int]`, `int(ceil(E))`,
+    `return Stream(E for v in x)` with the raising primitives of E bound in Python's order of evaluation; `__len__` and the
+    property `table` must be the one-liners of ACCESSORS; the method `TableLookup.__getitem__` (Lean `table_getitem`, returns
+    one value: `Except String α`): also `int(floor(E))` (the parameter `floor`), `j % k` of ints, `return E`
 Normalised away: whitespace, comments, docstrings, line numbers.  Variable names are kept (they are the names in the Lean text)."""
 import ast
 import os
@@ -30,23 +43,41 @@ PARAMS = {
     "fadeout": [("dur", "num")],
     "attack": [("a", "num"), ("d", "num"), ("s", "arg")],
     "adsr": [("dur", "num"), ("a", "num"), ("d", "num"), ("s", "num"), ("r", "num")],
+    "ones": [("dur", "optnum")],
+    "zeros": [("dur", "optnum")],
+    "impulse": [("dur", "optnum"), ("one", "item"), ("zero", "item")],
+    "sinusoid": [("freq", "arg"), ("phase", "arg")],
+    "table_call": [("freq", "arg"), ("phase", "arg")],
+    "table_getitem": [("idx", "num")],
 }
-ORDER = ["modulo_counter", "line", "fadein", "fadeout", "attack", "adsr"]
+ORDER = ["modulo_counter", "line", "fadein", "fadeout", "attack", "adsr", "ones", "zeros", "impulse", "sinusoid",
+         "table_call", "table_getitem"]
+# methods: Lean name -> (class, method); `self` is dropped, what is read of it comes in through EXTERNALS
+METHODS = {"table_call": ("TableLookup", "__call__"), "table_getitem": ("TableLookup", "__getitem__")}
+# functions that return one value (or raise): `Except String α`, no number of reads
+VALUE_FUNCS = {"table_getitem"}
+# one-line methods / properties the translated methods go through, checked to be exactly these
+ACCESSORS = {("TableLookup", "__len__"): "return len(self._table)", ("TableLookup", "table"): "return self._table"}
+# functions whose items are of any type (the yielded values are parameters): `Run β`
+ITEM_FUNCS = {"impulse"}
+# names of the module that a function uses, as parameters of its Lean definition: `sin` (math.sin, any function of the
+# samples) and `twoPi`, the value of the expression `2 * pi` (part of the trusted vocabulary mapping)
+# and, for methods, what is read of `self`: `table` (self.table, a list; len(self) is its length) and `den`, the value of
+# the expression `self.cycles * 2 * pi`
+EXTERNALS = {"sinusoid": [("sin", "fn"), ("twoPi", "num")], "table_call": [("table", "table"), ("den", "num")],
+             "table_getitem": [("floor", "floorfn"), ("table", "table")]}     # floor: `int(math.floor(x))`, not in NumOps
+BETA_FUNCS = ITEM_FUNCS | {"sinusoid"}
 SHORT = {"modulo_counter": "mc", "attack": "attack", "line": "line", "adsr": "adsr"}
 TAG = {"start": "P", "modulo": "M", "step": "S", "s": "S"}
-LEAN_TY = {"num": "α", "int": "Int", "bool": "Bool", "arg": "Arg α", "list": "List α", "optlist": "Option (List α)"}
+LEAN_TY = {"num": "α", "int": "Int", "bool": "Bool", "arg": "Arg α", "list": "List α", "optlist": "Option (List α)",
+           "optnum": "Option α", "item": "β", "fn": "α → β", "table": "List α", "floorfn": "α → Except String Int"}
 RESERVED = {"end", "begin", "from", "fun", "at", "do", "then", "else", "if", "let", "in", "open", "show", "have", "o",
             "nreads", "match", "with", "def", "where", "by", "Type", "instance", "structure", "import", "namespace"}
 FUEL = "nreads"
 NOT_TRANSLATED = {
-    "ones / zeros / zeroes": "`dur is None or (isinf(dur) and dur > 0)` on an optional argument followed by a fall-through "
-                             "`while True` without `else`: outside the subset (hand model `constG`)",
-    "impulse": "same optional-duration shape, items of any type (hand model `impulseG`)",
     "white_noise / gauss_noise": "random values: only the duration is modelled (`noiseLen`)",
-    "TableLookup.__call__ / __getitem__ / operators / harmonize / normalize": "methods on an object with attributes and "
-        "list indexing with negative indices: outside the subset (hand models `tableCallG`, `lookupAtG`, `tableGetItem`, "
-        "Model/C19Obj)",
-    "sinusoid": "one line over modulo_counter and `sin`; hand model `sinusoid`",
+    "TableLookup operators / harmonize / normalize / __init__ / table setter": "methods on an object with mutable "
+        "attributes: outside the subset (hand models of Model/C19Obj)",
     "karplus_strong": "built from filter objects of lazy_filters (C04/C12 territory)",
     "resample (lazy_poly.py)": "deque / Stream.take / lagrange: outside the subset (hand model `resample`, refinement proved)",
 }
@@ -71,6 +102,7 @@ class Fn:
         self.name = name
         self.sigs = sigs          # name -> [(param, kind, default-node|None)] of all wanted functions
         self.tmp = 0
+        self.fbind = "bindE" if name in VALUE_FUNCS else "runPre"   # a raising primitive at function level
         self.bodies = []          # emitted loop-body definitions (text)
         self.order = []           # every variable in order of first definition (for the free-variable lists)
 
@@ -104,6 +136,56 @@ class Fn:
             if node.id not in env:
                 bad(node, "unknown name %r" % node.id)
             return [], lname(node.id), env[node.id]
+        if isinstance(node, ast.BinOp) and isinstance(node.op, ast.Mult) and isinstance(node.left, ast.Constant) \
+                and type(node.left.value) is int and node.left.value == 2 and isinstance(node.right, ast.Name) \
+                and node.right.id == "pi" and env.get("twoPi") == "num" and "pi" not in env:
+            return [], "twoPi", "num"          # the expression `2 * pi`, written exactly so
+        if env.get("self") == "self" and env.get("den") == "num" \
+                and ast.dump(node) == ast.dump(ast.parse("self.cycles * 2 * pi", mode="eval").body):
+            return [], "den", "num"            # the expression `self.cycles * 2 * pi`, written exactly so
+        if isinstance(node, ast.Subscript) and isinstance(node.value, ast.Name) and env.get(node.value.id) == "table":
+            idx = node.slice.value if isinstance(node.slice, getattr(ast, "Index", ())) else node.slice
+            b, t, ty = self.expr(idx, env)
+            if ty != "int":
+                bad(node, "a table is indexed with an int")
+            v = self.fresh()
+            return b + [(v, "indexG %s %s" % (lname(node.value.id), t))], v, "num"
+        if isinstance(node, ast.Call) and isinstance(node.func, ast.Name) and node.func.id == "int" and len(node.args) == 1 \
+                and not node.keywords and isinstance(node.args[0], ast.Call) and isinstance(node.args[0].func, ast.Name) \
+                and node.args[0].func.id == "ceil" and len(node.args[0].args) == 1 and not node.args[0].keywords:
+            b, t, ty = self.expr(node.args[0].args[0], env)
+            if ty != "num":
+                bad(node, "ceil() of a non-number")
+            v = self.fresh()
+            return b + [(v, "o.ceil %s" % t)], v, "int"
+        if isinstance(node, ast.Call) and isinstance(node.func, ast.Name) and node.func.id == "int" and len(node.args) == 1 \
+                and not node.keywords and isinstance(node.args[0], ast.Call) and isinstance(node.args[0].func, ast.Name) \
+                and node.args[0].func.id == "floor" and len(node.args[0].args) == 1 and not node.args[0].keywords \
+                and env.get("floor") == "floorfn":
+            b, t, ty = self.expr(node.args[0].args[0], env)
+            if ty != "num":
+                bad(node, "floor() of a non-number")
+            v = self.fresh()
+            return b + [(v, "floor %s" % t)], v, "int"
+        if isinstance(node, ast.BinOp) and isinstance(node.op, ast.Mod) and not (
+                isinstance(node.left, ast.BinOp) and isinstance(node.left.op, ast.Mod)):
+            bl, tl, tyl = self.expr(node.left, env)
+            if tyl == "int":                         # int % int: floored, ZeroDivisionError
+                br, tr, tyr = self.expr(node.right, env)
+                if br or tyr != "int":
+                    bad(node, "int % something that is not a plain int")
+                v = self.fresh()
+                return bl + [(v, "intModG %s %s" % (tl, tr))], v, "int"
+            self.tmp -= len(bl)                      # not an int: read again below as a chain of number moduli
+        if isinstance(node, ast.Call) and isinstance(node.func, ast.Name) and node.func.id == "float" and len(node.args) == 1 \
+                and not node.keywords and isinstance(node.args[0], ast.Name) and env.get(node.args[0].id) == "int":
+            return [], "(o.ofInt %s)" % lname(node.args[0].id), "num"
+        if isinstance(node, ast.BinOp) and isinstance(node.op, ast.Mult) and isinstance(node.right, ast.Name) \
+                and env.get(node.right.id) == "arg":
+            b, t, ty = self.expr(node.left, env)       # number * (number or Stream): elementwise on a Stream
+            if b or ty != "num":
+                bad(node, "only a number that raises nothing multiplies an undecided argument")
+            return [], "(Arg.map (fun x => o.mul %s x) %s)" % (t, lname(node.right.id)), "arg"
         if isinstance(node, ast.UnaryOp) and isinstance(node.op, ast.USub):
             b, t, ty = self.expr(node.operand, env)
             if ty == "int":
@@ -164,6 +246,14 @@ class Fn:
             return [(v, "if %s then %s else %s" % (c, arm(ba, ta, tya), arm(bb, tb, tyb)))], v, tya
         bad(node, "expression outside the subset")
 
+    def yv(self, t, ty, node):
+        """the term of a yielded value: a number, or (functions of ITEM_FUNCS) an item"""
+        if self.name in ITEM_FUNCS:
+            if ty != "item":
+                bad(node, "an item is needed, found %s" % ty)
+            return t
+        return self.num(t, ty, node)
+
     def pure(self, node, env):
         b, t, ty = self.expr(node, env)
         if b:
@@ -174,6 +264,17 @@ class Fn:
         """a condition -> Lean Bool / Prop text"""
         if isinstance(node, ast.Name) and env.get(node.id) == "bool":
             return lname(node.id)
+        if isinstance(node, ast.BoolOp) and isinstance(node.op, ast.And) and len(node.values) == 2:
+            a, b = (self.cond(v, env) for v in node.values)
+            if not all(c.startswith(("o.isInf ", "o.lt ", "o.le ", "o.isZero ", "!(o.isZero ")) for c in (a, b)):
+                bad(node, "`and` of conditions that are not Bool valued operations of the number type")
+            return "(%s && %s)" % (a, b)
+        if isinstance(node, ast.Call) and isinstance(node.func, ast.Name) and node.func.id == "isinf" \
+                and len(node.args) == 1 and not node.keywords:
+            t, ty = self.pure(node.args[0], env)
+            if ty != "num":
+                bad(node, "isinf() of a non-number")
+            return "o.isInf %s" % t
         if isinstance(node, ast.Compare) and len(node.ops) == 1:
             l, r, op = node.left, node.comparators[0], node.ops[0]
             # abs(E) < float("inf")
@@ -190,6 +291,15 @@ class Fn:
             if tyl == "num" and isinstance(r, ast.Constant) and r.value == 0 and not isinstance(r.value, bool) \
                     and isinstance(op, (ast.Eq, ast.NotEq)):
                 return ("o.isZero %s" if isinstance(op, ast.Eq) else "!(o.isZero %s)") % tl
+            if tyl == "num" and isinstance(op, (ast.Lt, ast.LtE, ast.Gt, ast.GtE)):
+                # an order comparison of numbers; the int literal 0 is read as the number zero
+                if isinstance(r, ast.Constant) and r.value == 0 and not isinstance(r.value, bool):
+                    tr, tyr = "o.zero", "num"
+                if tyr != "num":
+                    bad(node, "comparison of a number with %s" % tyr)
+                f, x, y = {ast.Lt: ("o.lt", tl, tr), ast.LtE: ("o.le", tl, tr), ast.Gt: ("o.lt", tr, tl),
+                           ast.GtE: ("o.le", tr, tl)}[type(op)]
+                return "%s %s %s" % (f, x, y)
             if tyl == "int" and tyr == "int":
                 sym = {ast.Eq: "=", ast.NotEq: "≠", ast.Lt: "<", ast.LtE: "≤", ast.Gt: ">", ast.GtE: "≥"}.get(type(op))
                 if sym:
@@ -276,7 +386,22 @@ class Fn:
                         + self.block(rest, self.define(env, x, "optlist"), path, ind))
             if isinstance(value, ast.Name) and env.get(value.id) == "arg":
                 bad(st, "copy of an argument whose kind is not decided yet")
-            lines, env2 = self.assign(st, env, "runPre", ind)
+            if env.get("self") == "self" and ast.dump(value) == ast.dump(ast.parse("len(self)", mode="eval").body):
+                return (["%slet %s : Int := (table.length : Int)" % (ind, lname(x))]
+                        + self.block(rest, self.define(env, x, "int"), path, ind))
+            if env.get("self") == "self" and ast.dump(value) == ast.dump(ast.parse("self.table", mode="eval").body):
+                return (["%slet %s := table" % (ind, lname(x))] + self.block(rest, self.define(env, x, "table"), path, ind))
+            if isinstance(value, ast.Call) and isinstance(value.func, ast.Name) and value.func.id in self.sigs:
+                return (["%slet %s := %s" % (ind, lname(x), self.gen_call(value, env))]
+                        + self.block(rest, self.define(env, x, "run"), path, ind))
+            if x in env and env[x] in ("arg", "table", "run", "self", "fn"):
+                bad(st, "assignment to %r (%s)" % (x, env[x]))
+            b0, t0, ty0 = self.expr(value, env)
+            if ty0 == "arg":
+                if b0:
+                    bad(st, "raising argument expression")
+                return (["%slet %s := %s" % (ind, lname(x), t0)] + self.block(rest, self.define(env, x, "arg"), path, ind))
+            lines, env2 = self.assign(st, env, self.fbind, ind)
             return lines + self.block(rest, env2, path, ind)
         if isinstance(st, ast.If) and self.is_isinstance(st.test):
             x = st.test.args[0].id
@@ -287,6 +412,18 @@ class Fn:
                     + self.block(st.body + rest, dict(env, **{x: "list"}), path + tag.upper(), ind + "  ")
                     + ["%s| .num %s =>" % (ind, lname(x))]
                     + self.block(st.orelse + rest, dict(env, **{x: "num"}), path + tag.lower(), ind + "  "))
+        if isinstance(st, ast.If) and isinstance(st.test, ast.BoolOp) and isinstance(st.test.op, ast.Or) \
+                and len(st.test.values) == 2 and self.is_none_test(st.test.values[0]) \
+                and env.get(st.test.values[0].left.id) == "optnum":
+            # `if x is None or C: A else: B` on an optional number (C is evaluated only when x is a number)
+            x = st.test.values[0].left.id
+            envs = dict(env, **{x: "num"})
+            c = self.cond(st.test.values[1], envs)
+            return (["%smatch %s with" % (ind, lname(x)), "%s| none =>" % ind]
+                    + self.block(st.body + rest, dict(env, **{x: "nothing"}), path + "N", ind + "  ")
+                    + ["%s| some %s =>" % (ind, lname(x)), "%s  if %s then" % (ind, c)]
+                    + self.block(st.body + rest, envs, path + "T", ind + "    ")
+                    + ["%s  else" % ind] + self.block(st.orelse + rest, envs, path + "E", ind + "    "))
         if isinstance(st, ast.If) and self.is_none_test(st.test):
             x = st.test.left.id
             if env.get(x) != "optlist":
@@ -314,10 +451,35 @@ class Fn:
             env2 = self.define(env, x, "num")
             return (["%snextOr %s ([], none) fun %s %s =>" % (ind, lname(it), lname(x), lname(it))]
                     + self.block(rest, env2, path, ind))
+        if isinstance(st, ast.For) and isinstance(st.iter, ast.Call) and isinstance(st.iter.func, ast.Name) \
+                and st.iter.func.id in self.sigs:
+            if rest:
+                bad(rest[0], "statements after a loop over a generator")
+            return self.map_loop(st, env, ind)
         if isinstance(st, (ast.For, ast.While)):
             if rest:
                 bad(rest[0], "statements after a stateful loop")
             return self.loop(st, env, path, ind)
+        if isinstance(st, ast.Return) and not rest and isinstance(st.value, ast.Call) and isinstance(st.value.func, ast.Name) \
+                and st.value.func.id == "Stream" and len(st.value.args) == 1 and not st.value.keywords \
+                and isinstance(st.value.args[0], ast.GeneratorExp):
+            # `return Stream(E for v in r)` with r the run of a generator: E, which may raise, of every output, lazily
+            ge = st.value.args[0]
+            if len(ge.generators) != 1:
+                bad(st, "generator expression with several `for`")
+            g = ge.generators[0]
+            if g.ifs or getattr(g, "is_async", 0) or not (isinstance(g.target, ast.Name) and isinstance(g.iter, ast.Name)
+                                                          and env.get(g.iter.id) == "run" and g.target.id not in env):
+                bad(st, "generator expression outside the subset")
+            b, t, ty = self.expr(ge.elt, dict(env, **{g.target.id: "num"}))
+            lines = ["%smapRunG (fun %s =>" % (ind, lname(g.target.id))]
+            lines += ["%s  bindE (%s) fun %s =>" % (ind, term, v) for v, term in b]
+            lines.append("%s  .ok %s) %s" % (ind, self.num(t, ty, ge.elt), lname(g.iter.id)))
+            return lines
+        if isinstance(st, ast.Return) and st.value is not None and not rest and self.name in VALUE_FUNCS:
+            b, t, ty = self.expr(st.value, env)
+            return (["%sbindE (%s) fun %s =>" % (ind, term, v) for v, term in b]
+                    + ["%s.ok %s" % (ind, self.num(t, ty, st.value))])
         if isinstance(st, ast.Return) and st.value is not None and not rest:
             return [ind + self.call(st.value, env)]
         bad(st, "statement outside the subset")
@@ -343,6 +505,51 @@ class Fn:
             args.append(t)
         return "ALV.Gen.C19.%s o %s %s" % (node.func.id, " ".join(args), FUEL)
 
+    def map_loop(self, st, env, ind):
+        """`for v in g(args): yield f(v)` with g a translated generator function, f a function parameter: the outputs of
+        g through f, the exception of g (if any) after them"""
+        if st.orelse or not (isinstance(st.target, ast.Name) and self.single_yield(st)):
+            bad(st, "loop over a generator outside the subset")
+        v, y = st.target.id, st.body[0].value.value
+        if not (isinstance(y, ast.Call) and isinstance(y.func, ast.Name) and env.get(y.func.id) == "fn" and not y.keywords
+                and len(y.args) == 1 and isinstance(y.args[0], ast.Name) and y.args[0].id == v and v not in env):
+            bad(st, "the body of a loop over a generator must be `yield f(v)`")
+        return ["%smapOut %s (%s)" % (ind, lname(y.func.id), self.gen_call(st.iter, env))]
+
+    def gen_call(self, call, env):
+        """a call `g(args, kw=args)` of a translated generator function -> its run"""
+        g = call.func.id
+        if ORDER.index(g) >= ORDER.index(self.name) or g in BETA_FUNCS or g in METHODS:
+            bad(call, "call of a generator that is not translated before this function")
+        sig = self.sigs[g]
+        given = {}
+        for i, a in enumerate(call.args):
+            if i >= len(sig):
+                bad(call, "too many arguments")
+            given[sig[i][0]] = a
+        for kw in call.keywords:
+            if kw.arg is None or kw.arg not in [p for p, _, _ in sig] or kw.arg in given:
+                bad(call, "keyword argument %r" % kw.arg)
+            given[kw.arg] = kw.value
+        args = []
+        for p, kind, dflt in sig:
+            a = given.get(p, dflt)
+            if a is None:
+                bad(call, "missing argument %r" % p)
+            if kind == "arg" and isinstance(a, ast.Name) and env.get(a.id) == "arg" and p in given:
+                args.append(lname(a.id))
+                continue
+            t, ty = self.pure(a, env if p in given else {})
+            if kind == "arg":
+                args.append("(.strm %s)" % t if ty == "list" else "(.num %s)" % self.num(t, ty, a))
+            elif kind == "num":
+                args.append(self.num(t, ty, a))
+            elif kind == ty:
+                args.append(t)
+            else:
+                bad(call, "argument %r: %s given, %s needed" % (p, ty, kind))
+        return "ALV.Gen.C19.%s o %s %s" % (g, " ".join(args), FUEL)
+
     # ---- list segments ------------------------------------------------------------------------------------
     def single_yield(self, st):
         return (len(st.body) == 1 and isinstance(st.body[0], ast.Expr) and isinstance(st.body[0].value, ast.Yield)
@@ -350,6 +557,10 @@ class Fn:
 
     def is_segment(self, st, env):
         """a loop whose body is one `yield` of an expression that raises nothing and assigns nothing"""
+        if isinstance(st, ast.Expr) and isinstance(st.value, ast.Yield) and st.value.value is not None:
+            y = st.value.value        # a `yield E` at function level: a segment of one sample
+            return not any(isinstance(n, ast.BinOp) and isinstance(n.op, ast.Mod) or isinstance(n, ast.Call)
+                           for n in ast.walk(y))
         if not isinstance(st, (ast.For, ast.While)) or st.orelse or not self.single_yield(st):
             return False
         y = st.body[0].value.value
@@ -380,8 +591,8 @@ class Fn:
                 bad(st, "a loop bound that can raise, after samples were already yielded")
             pre += ["%srunPre (%s) fun %s =>" % (ind, term, v) for v, term in b]
             segs.append(t)
-            if isinstance(st, ast.If):
-                break
+            if isinstance(st, ast.If) or (isinstance(st, ast.While) and stmts[k + 1:]):
+                break                 # `while True: yield E` never ends: what follows it is never run
         return pre + ["%stakeRun %s (%s)" % (ind, FUEL, ("\n%s  ++ " % ind).join(segs))]
 
     def segment(self, st, env, rest):
@@ -394,10 +605,13 @@ class Fn:
             b = [self.segment(s, envb, [])[1] for s in st.orelse + rest]
             return [], "(match %s with | none => %s | some %s => %s)" % (
                 lname(x), " ++ ".join(a) or "[]", lname(x), " ++ ".join(b) or "[]")
+        if isinstance(st, ast.Expr):
+            t, ty = self.pure(st.value.value, env)
+            return [], "[%s]" % self.yv(t, ty, st)
         y = st.body[0].value.value
         if isinstance(st, ast.While):
             t, ty = self.pure(y, env)
-            return [], "List.replicate %s %s" % (FUEL, self.num(t, ty, y))
+            return [], "List.replicate %s %s" % (FUEL, self.yv(t, ty, y))
         v = st.target.id
         if isinstance(st.iter, ast.Name):
             t, ty = self.pure(y, dict(env, **{v: "num"}))
@@ -406,7 +620,7 @@ class Fn:
         if kty != "int":
             bad(st, "xrange() of a non-int")
         t, ty = self.pure(y, dict(env, **{v: "int"}))
-        return b, "rangeG %s %s (fun (%s : Nat) => %s)" % (k, FUEL, lname(v), self.num(t, ty, y))
+        return b, "rangeG %s %s (fun (%s : Nat) => %s)" % (k, FUEL, lname(v), self.yv(t, ty, y))
 
     # ---- stateful loops -----------------------------------------------------------------------------------
     def assigned(self, stmts, acc):
@@ -521,11 +735,31 @@ def read_functions(text):
     """source text -> {name: FunctionDef} of the wanted top-level functions"""
     tree = ast.parse(text)
     found = {}
+    seen_acc = set()
     for node in tree.body:
         if isinstance(node, ast.FunctionDef) and node.name in PARAMS:
             if node.name in found:
                 raise TranslationError("%s defined twice" % node.name)
             found[node.name] = node
+        if isinstance(node, ast.ClassDef):
+            for sub in node.body:
+                if not isinstance(sub, ast.FunctionDef):
+                    continue
+                for lean, (cls, meth) in METHODS.items():
+                    if (node.name, sub.name) == (cls, meth):
+                        if lean in found:
+                            raise TranslationError("%s.%s defined twice" % (cls, meth))
+                        found[lean] = sub
+                want = ACCESSORS.get((node.name, sub.name))
+                getter = [ast.dump(d) for d in sub.decorator_list] in ([], [ast.dump(ast.Name(id="property", ctx=ast.Load()))])
+                if want is not None and getter:
+                    body = [b for b in sub.body if not (isinstance(b, ast.Expr) and isinstance(b.value, ast.Constant))]
+                    if [ast.dump(b) for b in body] != [ast.dump(b) for b in ast.parse(want).body] \
+                            or [a.arg for a in sub.args.args] != ["self"]:
+                        raise TranslationError("%s.%s is not `%s`" % (node.name, sub.name, want))
+                    seen_acc.add((node.name, sub.name))
+    if set(ACCESSORS) - seen_acc:
+        raise TranslationError("accessors not found: %s" % sorted(set(ACCESSORS) - seen_acc))
     missing = [f for f in ORDER if f not in found]
     if missing:
         raise TranslationError("functions not found: %s" % missing)
@@ -536,15 +770,22 @@ def signature(fn):
     a = fn.args
     if a.vararg or a.kwarg or a.kwonlyargs or getattr(a, "posonlyargs", None):
         bad(fn, "*args / **kwargs / keyword-only / positional-only parameters")
-    want = PARAMS[fn.name]
-    if [p.arg for p in a.args] != [p for p, _ in want]:
-        bad(fn, "parameters %s, expected %s" % ([p.arg for p in a.args], [p for p, _ in want]))
+    want = PARAMS[fn.lean_name]
+    given = [p.arg for p in a.args]
+    if fn.lean_name in METHODS:
+        if given[:1] != ["self"]:
+            bad(fn, "a method without self")
+        given = given[1:]
+    if given != [p for p, _ in want]:
+        bad(fn, "parameters %s, expected %s" % (given, [p for p, _ in want]))
     nd = len(a.defaults)
     out = []
     for i, (p, kind) in enumerate(want):
-        k = i - (len(a.args) - nd)
+        k = i - (len(given) - nd)
         d = a.defaults[k] if k >= 0 else None
-        if d is not None and not (isinstance(d, ast.Constant) and isinstance(d.value, (int, float, bool))):
+        if d is not None and kind == "optnum" and isinstance(d, ast.Constant) and d.value is None:
+            pass
+        elif d is not None and not (isinstance(d, ast.Constant) and isinstance(d.value, (int, float, bool))):
             bad(fn, "default of %r is not a number / bool constant" % p)
         out.append((p, kind, d))
     return out
@@ -561,6 +802,8 @@ def decorators(fn):
 
 def translate(text):
     fns = read_functions(text)
+    for f in fns:
+        fns[f].lean_name = f
     sigs = {f: signature(fns[f]) for f in ORDER}
     out = ["/- GENERATED by harness/props/c19_tr.py from audiolazy/lazy_synth.py (function bodies read with `ast`):",
            "   " + ", ".join(ORDER) + ".",
@@ -583,14 +826,22 @@ def translate(text):
                 and isinstance(body[0].value.value, str):
             body = body[1:]
         tr = Fn(f, sigs)
-        env = {}
+        env = {"self": "self"} if f in METHODS else {}
+        for p, kind in EXTERNALS.get(f, []):
+            env = tr.define(env, p, kind)
         for p, kind, _ in sigs[f]:
             env = tr.define(env, p, kind)
         lines = tr.block(body, env, "", "  ")
         for b in tr.bodies:
             out += [b, ""]
-        params = " ".join("(%s : %s)" % (lname(p), LEAN_TY[kind]) for p, kind, _ in sigs[f])
-        out += ["def %s (o : NumOps α) %s (%s : Nat) : Run α :=" % (f, params, FUEL)] + lines + [""]
+        params = " ".join("(%s : %s)" % (lname(p), LEAN_TY[kind])
+                          for p, kind in EXTERNALS.get(f, []) + [(p, kind) for p, kind, _ in sigs[f]])
+        if f in VALUE_FUNCS:
+            out += ["def %s (o : NumOps α) %s : Except String α :=" % (f, params)] + lines + [""]
+        elif f in BETA_FUNCS:
+            out += ["def %s {β : Type} (o : NumOps α) %s (%s : Nat) : Run β :=" % (f, params, FUEL)] + lines + [""]
+        else:
+            out += ["def %s (o : NumOps α) %s (%s : Nat) : Run α :=" % (f, params, FUEL)] + lines + [""]
     out += ["end ALV.Gen.C19", ""]
     return "\n".join(out)
 
@@ -645,6 +896,32 @@ EDITS = [
     ("drop the slope guard (adsr m_r)", "m_r = - s * 1. / r if r != 0 else 0.", "m_r = - s * 1. / r"),
     ("fadeout arguments swapped", "return line(dur, 1., 0.)", "return line(dur, 0., 1.)"),
     ("attack: sustain stream restarted (iter dropped)", "      s = next(it_s)", "      s = next(iter(s))"),
+    ("ones: rounding of the duration int(.5 + dur) -> int(dur)", "  for x in xrange(int(.5 + dur)):\n    yield 1.0",
+     "  for x in xrange(int(dur)):\n    yield 1.0"),
+    ("zeros yields 1.0 in the endless branch", "    while True:\n      yield 0.0", "    while True:\n      yield 1.0"),
+    ("impulse: endless for negative infinity too (dur > 0 dropped)",
+     "  if dur is None or (isinf(dur) and dur > 0):\n    yield one", "  if dur is None or isinf(dur):\n    yield one"),
+    ("impulse: swap-comparison dur >= .5 -> dur > .5", "  elif dur >= .5:", "  elif dur > .5:"),
+    ("impulse: constant int(dur - .5) -> int(dur + .5)", "num_samples = int(dur - .5)", "num_samples = int(dur + .5)"),
+    ("sinusoid: phase and frequency swapped", "modulo_counter(start=phase, modulo=2 * pi, step=freq)",
+     "modulo_counter(start=freq, modulo=2 * pi, step=phase)"),
+    ("sinusoid: modulo pi", "modulo_counter(start=phase, modulo=2 * pi, step=freq)",
+     "modulo_counter(start=phase, modulo=pi, step=freq)"),
+    ("sinusoid: the counter itself is yielded", "    yield sin(n)", "    yield n"),
+    ("TableLookup.__call__: counter arguments swapped", "tbl_iter = modulo_counter(part, total_len_float, step)",
+     "tbl_iter = modulo_counter(step, total_len_float, part)"),
+    ("TableLookup.__call__: right neighbour without the wrap", "tbl[int(ceil(idx)) - total_length]", "tbl[int(ceil(idx))]"),
+    ("TableLookup.__call__: left weight is the fraction", "return Stream(tbl[int(idx)] * (1. - (idx - int(idx))) +",
+     "return Stream(tbl[int(idx)] * (idx - int(idx)) +"),
+    ("TableLookup.__call__: cycle length without the cycles", "cycle_length = total_len_float / (self.cycles * 2 * pi)",
+     "cycle_length = total_len_float / (2 * pi)"),
+    ("TableLookup.__len__ counts something else", "    return len(self._table)", "    return len(self._table) - 1"),
+    ("TableLookup.__getitem__: D15 back (int(idx) instead of int(floor(idx)))", "left = int(floor(idx))", "left = int(idx)"),
+    ("TableLookup.__getitem__: left neighbour without the wrap", "return tbl[left % total_length] *", "return tbl[left] *"),
+    ("TableLookup.__getitem__: weights swapped", "tbl[int(ceil(idx)) % total_length] * (idx - left)",
+     "tbl[int(ceil(idx)) % total_length] * (left - idx)"),
+    ("impulse: the one is yielded after the zeros (reorder)", "    yield one\n    for x in xrange(num_samples):\n      yield zero",
+     "    for x in xrange(num_samples):\n      yield zero\n    yield one"),
 ]
 
 
